@@ -2,7 +2,7 @@ use crate::subtyping::IsEmptyStatus;
 use crate::subtyping::mapping::mapping_is_empty_impl;
 use crate::subtyping::{
     bdd::{Atom, Bdd, BddOps},
-    semtype::{BddMemoEmptyRef, MemoEmpty, SemTypeContext},
+    semtype::{BddMemoEmptyRef, MemoEmpty, MemoKey, SemTypeContext},
 };
 use anyhow::Result;
 use std::rc::Rc;
@@ -129,20 +129,29 @@ fn mapping_is_empty_handle_recusrsion(
             MemoEmpty::False(ev) => return Ok(*ev),
             MemoEmpty::Undefined => {
                 // we got a loop
+                ctx.memo_loop(&MemoKey::Mapping(dnf.clone()));
                 return Ok(IsEmptyStatus::IsEmpty);
             }
         },
         None => {
             ctx.mapping_memo_dnf
                 .insert(dnf.clone(), BddMemoEmptyRef(MemoEmpty::Undefined));
+            ctx.memo_enter(MemoKey::Mapping(dnf.clone()));
         }
     }
 
-    let is_empty = mapping_is_empty_impl(dnf.clone(), ctx, is_map)?;
-    ctx.mapping_memo_dnf
-        .get_mut(&dnf)
-        .expect("bdd should be cached by now")
-        .0 = MemoEmpty::from_bool(&is_empty);
+    let is_empty = mapping_is_empty_impl(dnf.clone(), ctx, is_map);
+    let provisional = ctx.memo_exit();
+    let is_empty = is_empty?;
+    if provisional && is_empty.is_empty() {
+        // only valid under an assumption that is still being checked: do not remember it
+        ctx.mapping_memo_dnf.remove(&dnf);
+    } else {
+        ctx.mapping_memo_dnf
+            .get_mut(&dnf)
+            .expect("bdd should be cached by now")
+            .0 = MemoEmpty::from_bool(&is_empty);
+    }
     Ok(is_empty)
 }
 
